@@ -172,7 +172,11 @@ func c09Case(run *evid.Run, i int, j *Journal) {
 			}
 			load := func() {
 				returned, dump = callHang(x.W.Store, time.Second, func() {
-					loaded, err = x.W.Reload(l, loader, x.Writer[s.R], &hx.LoadOpts{Concurrency: conc, Length: length})
+					lopts := &hx.LoadOpts{Concurrency: conc, Length: length}
+					if conc%2 == 0 {
+						lopts.TimeoutMs = 600000 // a (very generous) fetch timeout must not change what is loaded
+					}
+					loaded, err = x.W.Reload(l, loader, x.Writer[s.R], lopts)
 				})
 			}
 			if pol == "ungated" {
